@@ -133,7 +133,10 @@ def run(E: Engine, rep: Report, tier: str) -> dict:
         stars = [a for a in l.value[2][1:] if a[0] == "star"]
         bs = arg(l, -1, "basis")
         sched_pulse = arg(c_ap[-1], 0, "pulse")
-        ok = ok and a0 is not None and sym.contains(a0, ("attr", sched_pulse, "post_phase_shift")) and len(stars) == 1 and len(l.value[2]) == 2 and stars[0][1] == ("attr", last, "targets") and bs == basis and own.index(l) > own.index(c_ap[-1])
+        # ... on every alternative of the value (with and without a drift correction the pulse's own shift is part of it)
+        from .symutil import branches as _br7
+
+        ok = ok and a0 is not None and all(sym.contains(leaf_, ("attr", sched_pulse, "post_phase_shift")) for _c7, leaf_ in _br7(a0)) and len(stars) == 1 and len(l.value[2]) == 2 and stars[0][1] == ("attr", last, "targets") and bs == basis and own.index(l) > own.index(c_ap[-1])
     rep.check(ok, "FLOW", "Sequence._add|post_phase_shift-applied-to-targets", "_phase_shift(post_phase_shift [- drift], *last.targets, basis=basis)", "the post-phase-shift is no longer applied (after the pulse is added) to the pulse's targets in the channel's basis", E.where(add))
     # one reference object per atom: every table stored into _basis_ref is {q: _QubitRef() for q in <qubit ids>}
     # (dict.fromkeys(ids, _QubitRef()) would make all atoms share one reference)
